@@ -79,7 +79,16 @@ func checkCase(c Case, rec *pbt.Rec) pbt.Verdict {
 	if c.stepped() && len(vs) == 0 {
 		if twin, cancelled := withoutCancels(c); len(cancelled) > 0 {
 			ot := run(twin)
-			if len(ot.inconclusive) > 0 || len(ot.liveness) > 0 || ot.leak != "" {
+			if len(ot.liveness) > 0 || ot.leak != "" {
+				// the twin is a case in its own right: what it violates is a violation (and it must not cost the
+				// full grace again and again while nobody records it)
+				established.Store(true)
+				for _, v := range judge(ot) {
+					v.msg = "in the same case minus its cancels: " + v.msg
+					vs = append(vs, v)
+				}
+				rec.Label("twin:violates-by-itself")
+			} else if len(ot.inconclusive) > 0 {
 				rec.Label("twin:inconclusive")
 			} else {
 				rec.Label("twin:compared")
